@@ -20,6 +20,7 @@ func checkC18(c *an.Ctx) {
 	c.Rule("C18.4", "depends_on → stage (E3/E5): after the last stage of a pipeline was added, every element of every stage's DependsOn itself (not a transformed copy) is looked up in the node set of the same graph; absent → non-nil error that fails the load")
 	c.Rule("C18.5", "inclusion cycles (E3/E7): on every success path of buildFromDefinition a recursive walk over Stage.Pipeline links runs for every pipeline, with a mark set allocated per starting pipeline that describes the current path (un-marked on every cycle-free exit), reports a revisit as a non-nil error, and that error fails the load")
 	c.Rule("C18.6", "consumers are guarded (E3/E5): the recursive consumers of Stage.Pipeline (scheduler, graph drawing) take their graphs from Config.Pipelines, which passed C18.4/C18.5")
+	c.Rule("C18.7", "a rejected configuration is rejected with an error, not with a hang (E8): no channel operation, Cond.Wait or polling loop is synchronously reachable from Loader.Load / LoadGlobalConfig unless it has an unconditional waker (the rule of C15.10 on the two entry points that accept or reject a configuration)")
 	c.NotDecided = append(c.NotDecided, "completeness of a validator beyond its decision row (e.g. one that inspects only part of what it ranges over is caught only if the range/lookup provenance changes)", "graphs built directly through the scheduler API, bypassing internal/config")
 	p := c.P
 	bp := p.Func("internal/config", "", "buildPipeline")
@@ -28,6 +29,19 @@ func checkC18(c *an.Ctx) {
 	if bp == nil || bfd == nil || add == nil {
 		c.Und("C18.0", "config.buildPipeline", token.NoPos, "buildPipeline / buildFromDefinition / AddStage not found")
 		return
+	}
+	{
+		var entries []*ssa.Function
+		for _, name := range []string{"Load", "LoadGlobalConfig"} {
+			if f := p.Func("internal/config", "Loader", name); f != nil {
+				entries = append(entries, f)
+			}
+		}
+		if len(entries) == 2 {
+			loadWaits(c, "C18.7", entries)
+		} else {
+			c.Und("C18.7", "config.(*Loader).Load", token.NoPos, "Load / LoadGlobalConfig not found")
+		}
 	}
 	var stageLoop *an.Loop
 	for _, l := range an.Loops(bp) {
